@@ -57,6 +57,10 @@ def dt_cases(tier):
     for iv in ((2, 3), (3, 3), (2, 4)):
         out += [(('once', iv, px), False, (), None), (('historically', iv, F.X), False, (), None), (('since', iv, px, py), False, (), None),
                 (('not', ('once', iv, ('not', px))), False, (), None), (('eventually', iv, px), True, (), None)]
+    # wide windows (implementations that switch to another data structure above some width keep more state than a short window shows)
+    for iv in ((0, 4), (0, 5), (2, 7), (0, 8), (1, 9), (4, 4), (8, 8)) + (() if quick else ((0, 15), (3, 19), (16, 16))):
+        out += [(('once', iv, F.X), False, (), None), (('historically', iv, px), False, (), None), (('eventually', iv, F.X), True, (), None),
+                (('always', iv, px), True, (), None), (('or', ('eventually', iv, px), py), True, (), None)]
     # with sub-specifications
     out.append((('and', ('once', (0, 2), px), ('prev', ('once', (0, 2), px))), False, ('p = once[0,2] (x >= 0);',), 'out = p and (prev p)'))
     out.append((('since', (1, 2), ('historically', (0, 1), px), py), False, ('p = historically[0,1] (x >= 0);',), 'out = p since[1,2] (y <= 1)'))
